@@ -18,6 +18,7 @@ struct FaceObj {
     u64 gets_at_ctor = 0;
     bool alive = false;
     bool pristine_gids = false;    // gid clause of C03 applies
+    bool has_just = true;          // served Silf has justification passes / levels / line-end contextuals (C19 gid clause off)
     unsigned nfeat = 0;
 };
 struct FontObj { gr_font *font = 0; int face = -1; float ppm = 0; bool alive = false; };
